@@ -501,6 +501,13 @@ func genC17(c *lp.Ctx) {
 			}
 		}
 	}
+	// groups of exactly 64 / 128 keys sharing runs of 100 .. 4000 bytes, and the wide-then-thin shape
+	for _, run := range []int{100, 1000, 4000}[:c.Pick(2, 3)] {
+		grid = append(grid, gen.GroupsOf64(c.Rng, run))
+	}
+	for _, first := range []int{50, 100, 200} {
+		grid = append(grid, gen.WideThenThin(c.Rng, first))
+	}
 	for it := 0; it < n+len(grid); it++ {
 		var ks gen.KeySet
 		if it < len(grid) {
